@@ -36,7 +36,11 @@ pub(crate) fn parse_allowed_timezone_formats(s: &str) -> Option<TimeZone> {
         match offset {
             UtcOffsetRecordOrZ::Z => return Some(TimeZone::default()),
             UtcOffsetRecordOrZ::Offset(offset) => {
-                return Some(TimeZone::UtcOffset(UtcOffset::from_ixdtf_record(offset)))
+                // A time zone offset has minute precision: seconds cannot be dropped silently.
+                if offset.second != 0 || offset.fraction.is_some() {
+                    return None;
+                }
+                return Some(TimeZone::UtcOffset(UtcOffset::from_ixdtf_record(offset)));
             }
         }
     }
